@@ -30,6 +30,9 @@ checks = {
  "C08": ("exploration", "monitor on StateStorage writes, RequestVote replies and state samples across incarnations",
          "Persisted terms and reply/status terms never decrease per node id across crash-fork restarts; at most one candidate per (node, term) over all SetState calls and granted replies; grants only to up-to-date logs; prevote handlers cause no SetState; granted vote is on disk before the reply exists; reopened state equals last completed write.",
          "same as C01", "5/C08"),
+ "C11": ("exploration", "puppet sweep of InstallSnapshot sequences with boundary probes; snapshot/compaction monitors on storage wrappers",
+         "Seed-determined InstallSnapshot request sequences (two source snapshots, 1-3 chunks, any order/duplication/offset, stale/higher terms, crash+restart) against a real node; oracles: installed bytes+label equal a source the sender had, applied/commit never decrease, no restore below applied, no committed entry beyond the label discarded, compaction/discard read-back, replication and vote probes answered as a node with the full log would.",
+         "bounded puppet domain; cluster schedules with snapshots are added by the snapshot checks", "5/C11"),
  "C12": ("fault_enumeration", "strace-recorded syscall replay: crash image at every syscall boundary and write byte-prefix, reopened with the real code against a reference model",
          "Enumerates, for seed-determined API sequences on the real persistentLog, every crash point at syscall and byte granularity (process-death model), and checks reopen + read-back against a reference list model plus continued operation. Exhaustive over the crash points of each executed sequence, sampled over sequences.",
          "process death only (completed writes persist); strace log is faithful (self-validated per trace)", "5/C12"),
